@@ -47,21 +47,22 @@
 //! nested-loop join); queries are built with the DataFrame API instead of SQL text so that literals have
 //! exactly the right column's type.
 //!
-//! Open findings (known_findings.json, cases under /verif/regressions/C47/c47, repairs under /verif/fixes/C47-*.diff,
-//! all of them together: C47-all-six.combined.diff). `known_signature` keeps the run going behind them; the
-//! generator also emits `lits = false` cases (no literal contexts) so the affected type pairs stay covered in
-//! projection / filter / join contexts, and the sweep removes only the offending values (`degrade`):
-//!   * `inlist-float-zero-sign` — `InListExpr` compares float bit patterns: `-0.0 IN (0.0, 5, 6, 7)` is false
-//!     although `-0.0 = 0.0` is true (`apply_cmp` normalises zeros) and the ≤ 3 item form (an OR chain) is true;
-//!     dictionary-encoded floats are not normalised by `=` either. Repairs: inlist-normalizes-float-zero +
-//!     float-zero-normalization-covers-dictionaries.
-//!   * `unwrap-cast-negative-scale` — `try_cast_literal_to_type`: `10_i128.pow(scale as u32)` with a negative
-//!     Decimal128 scale: overflow panic (debug) / multiplier 0, literal folded to 0 (release).
-//!   * `unwrap-cast-timestamp-literal-truncation` — `CAST(ts_col AS finer) op finer_literal` → `ts_col op
+//! Findings (known_findings.json, cases under /verif/regressions/C47/c47, patches under /verif/fixes/C47-*.diff):
+//!   * OPEN `unwrap-cast-timestamp-literal-truncation` — `CAST(ts_col AS finer) op finer_literal` → `ts_col op
 //!     literal / ratio` (truncating): `ts_seconds = TIMESTAMP '1970-01-01 00:00:00.001'` is true (CLI-confirmed).
-//!   * `unwrap-cast-int32-date64` — `CAST(int32 AS Date64) op date64_literal` unwrapped with the raw
-//!     millisecond count although the cast counts days.
-//!   * `date64-min-display` — `Display for ScalarValue::Date64(i64::MIN)` panics while naming the projection.
+//!     `known_signature` keeps the run going behind it; the generator also emits `lits = false` cases so the
+//!     affected pairs stay covered in projection / filter / join contexts, and the sweep removes only the
+//!     offending literal values (`degrade`).
+//!   * OPEN `dict-float-zero-sign` — the committed IN-list repair normalises plain floats only; with a
+//!     Dictionary(_, Float) operand `-0.0` / `+0.0` still differ in IN lists (`0 IN (dict -0.0, dict -0.0)` false,
+//!     pairwise `=` true). Repair: fixes/C47-float-zero-normalization-covers-dictionaries.diff (verified under
+//!     mutrun together with the others, probes/log-fixes2.txt).
+//!   * FIXED in /repo (cases are plain regressions now): `inlist-float-zero-sign` (InListExpr compared float
+//!     bit patterns, `-0.0 IN (0.0, 5, 6, 7)` false vs `-0.0 = 0.0` true), `unwrap-cast-negative-scale`
+//!     (`10_i128.pow(scale as u32)` with a negative Decimal128 scale), `unwrap-cast-int32-date64`
+//!     (Date64 literal unwrapped to raw milliseconds against an Int32 column).
+//!   * OUT OF SCOPE (auditor): `Display for ScalarValue::Date64(i64::MIN)` panics while the optimizer names an
+//!     expression; such literals are not used in the literal contexts (label `skipped-undisplayable-literal`).
 //! `VF_MIXED_IGNORE_KNOWN=1` lifts the exclusions (used to verify the repairs: probes/log-all-run1.txt — the five
 //! regression cases pass with the repairs; the un-excluded quick run then still failed for dictionary-encoded
 //! floats, which led to the sixth patch — and probes/log-fixes2.txt for the final round).
@@ -728,6 +729,10 @@ async fn body(r: &mut Runner<'_>, variant: &Variant, ev: &mut Eval) -> Result<Ca
         let mut lits: Vec<(usize, ScalarValue)> = vec![];
         if case.lits {
             for j in &bi {
+                if undisplayable_literal(case, *j) {
+                    labels.push("skipped-undisplayable-literal".into());
+                    continue;
+                }
                 lits.push((*j, literal_of(&case.r, &case.b[*j]).map_err(Fatal::Harness)?));
             }
             labels.push("literal-contexts".into());
@@ -983,6 +988,36 @@ async fn body(r: &mut Runner<'_>, variant: &Variant, ev: &mut Eval) -> Result<Ca
 // ---------------------------------------------------------------------------------------------
 // known findings
 
+/// The one open finding `unwrap-cast-timestamp-literal-truncation` only concerns cases that run the literal
+/// contexts; the generator also produces `lits = false` cases so the other contexts of those pairs stay covered.
+pub fn known_signature(case: &Case) -> Option<String> {
+    // `VF_MIXED_IGNORE_KNOWN=1`: run everything (used to verify candidate repairs under mutrun)
+    if !case.lits || std::env::var("VF_MIXED_IGNORE_KNOWN").is_ok() {
+        return None;
+    }
+    // (the findings `inlist-float-zero-sign`, `unwrap-cast-negative-scale` and `unwrap-cast-int32-date64` are
+    // repaired in /repo; their cases are plain regressions now and nothing is excluded for them)
+    // `unwrap-cast-timestamp-literal-truncation`: `CAST(ts_col AS finer unit) op finer_literal` is rewritten
+    // to `ts_col op literal / ratio` with a truncating division.
+    if let Some(ratio) = ts_ratio(&case.l.base, &case.r.base) {
+        if case.b.iter().any(|v| matches!(v, Val::N(s) if s.parse::<i128>().map(|n| n % ratio != 0).unwrap_or(false))) {
+            return Some("unwrap-cast-timestamp-literal-truncation".into());
+        }
+    }
+    // `dict-float-zero-sign`: the zero normalisation of `=` / IN (`normalize_float_zero{,_scalar}`) skips
+    // dictionary-encoded floats: with a Dictionary(_, Float) operand `-0.0` and `+0.0` stay different in IN
+    // lists (and in `=` between dictionary operands) while the plain-float comparison treats them as equal.
+    let dict_float = |t: &Ty| t.dict != Key::Plain && t.base.is_float();
+    if dict_float(&case.l) || dict_float(&case.r) {
+        let za: Vec<bool> = case.a.iter().filter_map(zero_sign).collect();
+        let zb: Vec<bool> = case.b.iter().filter_map(zero_sign).collect();
+        if za.iter().any(|x| zb.iter().any(|y| x != y)) {
+            return Some("dict-float-zero-sign".into());
+        }
+    }
+    None
+}
+
 /// sign of a zero value (Some(true) = negative zero), None for anything that is not a zero
 fn zero_sign(v: &Val) -> Option<bool> {
     match v {
@@ -1001,46 +1036,11 @@ fn zero_sign(v: &Val) -> Option<bool> {
     }
 }
 
-/// (Both signatures only apply to cases that run the literal contexts; the generator also produces
-/// `lits = false` cases so that the projection / filter / join contexts of those types stay covered.)
-/// `inlist-float-zero-sign`: a float comparison (one side is a float column) where one side holds
-/// `-0.0` and the other `+0.0`: `InListExpr` compares float bit patterns while `=` normalises the zeros.
-pub fn known_signature(case: &Case) -> Option<String> {
-    // `VF_MIXED_IGNORE_KNOWN=1`: run everything (used to verify candidate repairs under mutrun)
-    if !case.lits || std::env::var("VF_MIXED_IGNORE_KNOWN").is_ok() {
-        return None;
-    }
-    // `unwrap-cast-negative-scale`: `try_cast_literal_to_type` computes `10_i128.pow(scale as u32)` for a
-    // Decimal128 with a negative scale (overflow panic in debug builds, multiplier 0 in release builds);
-    // reached by every column-vs-literal comparison where the column or the literal has such a type.
-    let neg = |t: &Ty| matches!(t.base, Base::D128(_, s) if s < 0);
-    if neg(&case.l) || neg(&case.r) {
-        return Some("unwrap-cast-negative-scale".into());
-    }
-    // `date64-min-display`: `Display for ScalarValue::Date64(i64::MIN)` unwraps `Duration::try_milliseconds`
-    // (None for i64::MIN) → panic as soon as a plan with that literal is named / printed.
-    let has_min = |vs: &[Val]| vs.iter().any(|v| matches!(v, Val::N(s) if s == "-9223372036854775808"));
-    if (case.r.base == Base::Date64 && has_min(&case.b)) || (case.l.base == Base::Date64 && case.r.base == Base::I64 && has_min(&case.b)) {
-        return Some("date64-min-display".into());
-    }
-    // `unwrap-cast-int32-date64`: `CAST(int32_col AS Date64) op date64_literal` is rewritten to
-    // `int32_col op Int32(raw milliseconds)` although the cast Int32 → Date64 counts days.
-    if case.l.base == Base::I32 && case.r.base == Base::Date64 && case.b.iter().any(|v| matches!(v, Val::N(s) if s != "0")) {
-        return Some("unwrap-cast-int32-date64".into());
-    }
-    // `unwrap-cast-timestamp-literal-truncation`: `CAST(ts_col AS finer unit) op finer_literal` is rewritten
-    // to `ts_col op literal / ratio` with a truncating division.
-    if let Some(ratio) = ts_ratio(&case.l.base, &case.r.base) {
-        if case.b.iter().any(|v| matches!(v, Val::N(s) if s.parse::<i128>().map(|n| n % ratio != 0).unwrap_or(false))) {
-            return Some("unwrap-cast-timestamp-literal-truncation".into());
-        }
-    }
-    if !(case.l.base.is_float() || case.r.base.is_float()) {
-        return None;
-    }
-    let za: Vec<bool> = case.a.iter().filter_map(zero_sign).collect();
-    let zb: Vec<bool> = case.b.iter().filter_map(zero_sign).collect();
-    if za.iter().any(|x| zb.iter().any(|y| x != y)) { Some("inlist-float-zero-sign".into()) } else { None }
+/// A `Date64(i64::MIN)` literal cannot be rendered (`Display for ScalarValue` panics while the optimizer names
+/// an expression) — judged out of scope for C47: such literals are simply not used in the literal contexts.
+fn undisplayable_literal(case: &Case, j: usize) -> bool {
+    let is_min = matches!(&case.b[j], Val::N(s) if s == "-9223372036854775808");
+    is_min && (case.r.base == Base::Date64 || (case.l.base == Base::Date64 && case.r.base == Base::I64))
 }
 
 fn unit_scale(u: Unit) -> i128 {
@@ -1076,11 +1076,10 @@ fn degrade(mut c: Case, open: &BTreeSet<String>, log: &mut Vec<String>) -> Case 
         let name = format!("{}/{}", c.l.label(), c.r.label());
         let before = (c.a.len(), c.b.len());
         match sig.as_str() {
-            "inlist-float-zero-sign" => {
+            "dict-float-zero-sign" => {
                 c.a.retain(|v| zero_sign(v) != Some(true));
                 c.b.retain(|v| zero_sign(v) != Some(true));
             }
-            "date64-min-display" => c.b.retain(|v| !matches!(v, Val::N(s) if s == "-9223372036854775808")),
             "unwrap-cast-timestamp-literal-truncation" => {
                 let ratio = ts_ratio(&c.l.base, &c.r.base).unwrap_or(1);
                 c.b.retain(|v| !matches!(v, Val::N(s) if s.parse::<i128>().map(|n| n % ratio != 0).unwrap_or(false)));
